@@ -55,7 +55,18 @@ def install_inflate_wrapper() -> None:
                    "utf8": False, "out": [], "xeq": True, "err": ""}
             INFL_LOG.append(ent)
             try:
-                xo: Optional[bytes] = self._verif_indep.decompress(data)
+                # independent inflater; a block with BFINAL=1 ends a deflate stream, the rest of the
+                # input starts a new one (RFC 7692 7.2.3.4)
+                xo: Optional[bytes] = b""
+                rest = data
+                for _ in range(2000):
+                    xo += self._verif_indep.decompress(rest)
+                    if not self._verif_indep.eof:
+                        break
+                    rest = self._verif_indep.unused_data
+                    self._verif_indep = zlib.decompressobj(wbits=-15)
+                    if not rest:
+                        break
             except Exception:  # noqa: BLE001
                 xo = None
             try:
@@ -469,7 +480,8 @@ def run(ctx: Ctx) -> None:
                        "pure-Python reader_py (the C reader is not built in this tree)"]
     install_inflate_wrapper()
     loop = steploop.new_loop()
-    model_runs(ctx)
+    if not os.environ.get("VERIF_SKIP_MODELS"):       # (sensitivity experiments only: the models do not depend on /repo)
+        model_runs(ctx)
     drive_model_behaviours(ctx, loop)
     ctx.log(f"tlc-sim replays done: traces={ctx.traces}")
     drive_injected(ctx, loop)
